@@ -210,7 +210,7 @@ void drv_case (uint64_t idx) {
   for (int t = 0; t < nthreads; t++) if (tres[t] != alone[tw[t]]) { vp_fail ("thread-result-differs", "thread %d (%s) obtained %#llx, alone %#llx, schedule without preemption", t, WNAME[tw[t]], (unsigned long long) tres[t], (unsigned long long) alone[tw[t]]); return; }
   /* with thread 0 running first, a preemption at point p switches to another thread; points are numbered globally in execution order.  To keep the
      enumeration finite and complete within the bound, preemption positions range over every point of the preemption-free run and a stride covers long runs */
-  uint64_t stride = 1; int b = bound >= 2 && total_points <= 700 ? 2 : bound >= 1 ? 1 : 0; /* two preemptions only where the run is short enough to enumerate all pairs */
+  uint64_t stride = 1; int b = bound >= 2 && total_points <= 1400 ? 2 : bound >= 1 ? 1 : 0; /* two preemptions only where the run is short enough to enumerate all pairs */
   for (uint64_t p1 = 0; p1 < total_points; p1 += stride)
     for (int to1 = 1; to1 < nthreads; to1++) {
       n_sw = 1; sw_at[0] = p1; sw_to[0] = to1; uint64_t pts = run_schedule (); schedules++;
